@@ -53,14 +53,15 @@ def hasSuffix (suf n : Name) : Bool := suf.isSuffixOf n
 /-- `re.search(OUTPUT_KEEP_REGEX, name)` with the regex anchored at the start of the name -/
 def isKept (n : Name) : Bool := keptStr.isPrefixOf n
 
+/-- put a character in front of the first token -/
+def consHead (c : Char) : List Name → List Name
+  | [] => [[c]]
+  | t :: ts => (c :: t) :: ts
+
 /-- split at every `_` (always at least one token) -/
 def splitU : Name → List Name
   | [] => [[]]
-  | c :: cs =>
-    if c = '_' then [] :: splitU cs
-    else match splitU cs with
-      | [] => [[c]]
-      | t :: ts => (c :: t) :: ts
+  | c :: cs => if c = '_' then [] :: splitU cs else consHead c (splitU cs)
 
 /-- inverse of `splitU`: tokens joined by `_` -/
 def joinU : List Name → Name
